@@ -28,6 +28,9 @@ u64 objs[3][8];
 #define ORPHAN 0
 #endif
 u64 vpx_pthread_self(void) { return 1; }
+/* Block::adjustPositionInBin is cut: it touches only owner-private state (isFull, the bin's block list) and its float
+   arithmetic dominates the formula; the slab-fullness logic is covered sequentially by block_step */
+void _ZN3rml8internal5Block19adjustPositionInBinEPNS0_3BinE(blk_t* b, bin_t* bin) {}
 int begun[3], ended[3], ngot; u8* got[2]; u8* owner_blk[2]; int nblk;
 static int idx_of(u8* p) { return p == O(0) ? 0 : p == O(1) ? 1 : p == O(2) ? 2 : -1; }
 void vp_free_begin(u8* o) { begun[idx_of(o)] = 1; }
